@@ -120,6 +120,7 @@ class ModeStatistics:
         labels: np.ndarray,
         dof_fallback: float = DOF_FALLBACK,
         resample_factor: int = 4,
+        n_modes=None,
     ) -> "ModeStatistics":
         """
         Fit Student-t distributions to weighted particles per cluster.
@@ -169,10 +170,15 @@ class ModeStatistics:
         covariances = []
         degrees_of_freedom = []
 
-        unique_labels = np.unique(labels)
+        # One mode per cluster label: with n_modes given, mode k always belongs to
+        # label k, also when no particle carries some label
+        unique_labels = np.unique(labels) if n_modes is None else np.arange(n_modes)
         for label in unique_labels:
             # Extract particles for this cluster
             idx_cluster = np.where(labels == label)[0]
+            if len(idx_cluster) == 0:
+                # No particle of this cluster: fall back to the whole particle set
+                idx_cluster = np.arange(len(labels))
             u_cluster = u[idx_cluster]
             weights_cluster = weights[idx_cluster]
             weights_cluster = weights_cluster / np.sum(weights_cluster)
